@@ -36,7 +36,7 @@ CHECKS = {
  'C02': dict(
     technique='model-based testing over generated operation sequences (Hypothesis-generated op lists interpreted against the real Integrator and a fresh single-shot model), bitwise comparison; kernel bounds checking',
     text='Generated histories of integrate(chunk)/predict/get_pva/get_time/set_pva with chunk sizes aimed at buffer-growth boundaries, initial capacity 1..8, both altitude modes; after every operation the stored trajectory, '
-         'time index and return values must be bit-identical to a fresh integrator per segment integrating all rows in one call. Exploration of histories up to 30 operations / 48 rows.',
+         'time index and return values must be bit-identical to a fresh integrator per segment integrating all rows in one call. Exploration of histories up to 30 operations / 48 rows, plus long records (1000..4100 rows) integrated in one call vs several calls with predict() before every continuation.',
     note='Trusts NUMBA_BOUNDSCHECK=1 to trap out-of-bounds kernel writes and Integrator.INITIAL_SIZE as the capacity knob; float comparison is bitwise.',
     design='DESIGN.md section 4, C02'),
  'C09': dict(
@@ -121,7 +121,7 @@ CHECKS = {
  'C19': dict(
     technique='property-based testing over a registry of public callables: deep argument snapshots, run-twice bit-identity, form agreement, schema predicates; generated call sequences with re-issued calls',
     text='65 registry entries covering every public function/method of the ten modules (Turntable.generate_imu excluded) with arguments as writable ndarrays, lists, Series, DataFrames: no argument modified (except documented sensor-model estimates in filters), '
-         'equal inputs and integer seeds give bit-identical outputs, repeated and re-ordered calls reveal no hidden state, alternative forms agree within 4 ulp, returned tables carry the documented columns/index. Exploration.',
+         'equal inputs and integer seeds give bit-identical outputs, repeated and re-ordered calls reveal no hidden state, alternative forms (incl. tuples and integer-typed arguments) agree within 4 ulp, returned tables carry the documented columns/index; for every entry additionally: arguments overwritten in place between calls, the same arguments after calls with other arguments, and returned arrays overwritten by the caller must not change later results. Exploration.',
     note='Registry is hand-written; the evidence lists public callables it does not cover (none at present).',
     design='DESIGN.md section 4 and 4b, C19'),
 }
